@@ -251,8 +251,13 @@ def replay(name, ob, model, uni):
 
 
 def replay_known(k, uni):
+    kid = k.get("id", "")
+    if kid.startswith("perm-"):
+        from realise import perm_model as P
+        body = P.loops()[kid[len("perm-"):]]
+        return P.run_case(kid[len("perm-"):], body)[0] == "differs"
     from realise import C08 as R
-    return R.known(k.get("id"))
+    return R.known(kid)
 
 
 def extra(uni, tier, seed):
@@ -284,6 +289,25 @@ def extra(uni, tier, seed):
                              replay=_never_equal_replay(ob.name, r)))
     for k, v in u2.repo.used.items():
         uni.repo.used[k] = v
+    # BOUNDED (never counted as proved): permutation model
+    from realise import perm_model as P
+    n_perm = 0
+    for cid, verdict, detail, src in P.cases():
+        if verdict == "differs":
+            out.append(Extra(
+                f"bounded#iteration-order[{cid}]", False, detail[:300],
+                bounded=True, kind="bounded run-time contract: iterations "
+                "of a loop reported parallelisable executed in other orders",
+                replay={"confirmed": True, "case": cid,
+                        "input": {"source": src}, "observed": detail}))
+        elif verdict == "equal":
+            n_perm += 1
+    out.append(Extra("bounded#iteration-order", True,
+                     f"{n_perm} loops reported parallelisable give the "
+                     "serial arrays in every order tried (38 loops asked)",
+                     kind="bounded run-time contract: reversed and shuffled "
+                          "iteration orders with privatised scalars",
+                     count=n_perm, bounded=True))
     out.append(Extra("C17:SymbolicMaths.never_equal#all",
                      bool(out) or (n_ok > 0 and not rep.unsupported),
                      f"{n_ok} obligations discharged", kind="VCs of the "
